@@ -3,11 +3,12 @@ import json
 import subprocess
 import sys
 
-from . import adjacency, search
+from . import adjacency, search, scc
 
 REGISTRY = {}
 REGISTRY.update(adjacency.CHECKS)
 REGISTRY.update(search.CHECKS)
+REGISTRY.update(scc.CHECKS)
 
 
 def replay(pid, path):
